@@ -7,6 +7,7 @@ import RosuModel.Model.DetWire
 import RosuModel.Model.AttrsWire
 import RosuModel.Model.ModsWire
 import RosuModel.Model.StrainsWire
+import RosuModel.Model.StarsWire
 import RosuModel.Model.GenStateWire
 import RosuModel.Model.SafetyWire
 import RosuModel.Model.LifeWire
@@ -43,6 +44,7 @@ def handle (line : String) : String :=
   | ["DV", variant, kind, decay, k, factors, pushes] => StrainsWire.handleDV variant kind decay k factors pushes
   | ["SKILL", kind, fuel, objs] => StrainsWire.handleSKILL kind fuel objs
   | ["SECT", l, fuel, times] => StrainsWire.handleSECT l fuel times
+  | "STARS" :: args => StarsWire.handleSTARS args
   | "GS" :: mode :: args => GenState.handleGS mode args
   | ["LQ", n, ops] => Safety.Wire.handleLQ n ops
   | ["CC", ops] => Safety.Wire.handleCC ops
